@@ -87,11 +87,17 @@ func renderAll(pcs []uintptr) []string {
 		if fr.PC == 0 && fr.Function == "" {
 			break
 		}
+		// IMPORTPATH.FUNC: a symbol without a dot (assembly, C) has an empty
+		// import path and renders as ".SYMBOL"
+		fn := fr.Function
+		if !strings.Contains(fn, ".") {
+			fn = "." + fn
+		}
 		if fr.Func != nil {
 			_, el := fr.Func.FileLine(fr.Entry)
-			out = append(out, fmt.Sprintf("%s:%+d,+0x%x", fr.Function, fr.Line-el, fr.PC-fr.Entry))
+			out = append(out, fmt.Sprintf("%s:%+d,+0x%x", fn, fr.Line-el, fr.PC-fr.Entry))
 		} else {
-			out = append(out, fmt.Sprintf("%s:=%d,+0x%x", fr.Function, fr.Line, fr.PC-fr.Entry))
+			out = append(out, fmt.Sprintf("%s:=%d,+0x%x", fn, fr.Line, fr.PC-fr.Entry))
 		}
 		if !more {
 			break
@@ -1082,7 +1088,9 @@ func TestVerifC14Real(t *testing.T) {
 		for k, v := range extra {
 			rec[k] = v
 		}
-		if show[id] {
+		// the genuine texts differ from run to run (addresses, goroutines), so
+		// records that may need explaining carry their text themselves
+		if show[id] || (o.Kind != "err" && o.Kind != "nogo" && o.Kind != "name") || strings.Count(text, "sentinel ") > 1 {
 			tx := text
 			if len(tx) > 20000 {
 				tx = tx[:20000] + "..."
